@@ -112,9 +112,11 @@ def c_op(op):
     if k == "create_continuous_elements_index":
         return "ContAll %s %s %s" % (c_cs(op["cs"]), clist([cstr(e) for e in op["order"]]), cz(op["start"]))
     if k == "fuse_junctions":
-        return "Fuse %s %s %s" % (c_cs(op["cs"]), cz(op["j1"]), c_zs(op["j2"]))
+        return "%s %s %s %s" % ("Fuse" if op.get("drop", True) else "FuseKeep", c_cs(op["cs"]), cz(op["j1"]), c_zs(op["j2"]))
     if k == "select_subnet":
-        return "Select %s %s" % (c_cs(op["cs"]), c_zs(op["junctions"]))
+        # keep_everything_else / remove_internals / remove_unused_components do not change the element, geodata and
+        # result tables (a table that was removed counts as empty)
+        return "%s %s %s" % ("SelectRes" if op.get("include_results", False) else "Select", c_cs(op["cs"]), c_zs(op["junctions"]))
     if k == "drop_junctions":
         return "DropJ %s %s %s" % (c_cs(op["cs"]), c_zs(op["junctions"]), cbool(op["drop_elements"]))
     if k == "drop_elements_at_junctions":
@@ -434,11 +436,6 @@ def duplicate_labels(snap):
 
 def modelled(op):
     """operations / option combinations that coq/C17/Model.v covers (the others are judged by the Python oracle only)"""
-    k = op["op"]
-    if k == "fuse_junctions":
-        return op.get("drop", True)
-    if k == "select_subnet":
-        return not op.get("include_results", False)
     return True
 
 
